@@ -275,6 +275,18 @@ def specs(draw, max_formulas=14, with_arrays=True, with_names=True,
             for j in range(aw):
                 taken.add((ar + i, ac + j))
                 formulas.append(f'{SHEET}!{COLS[ac + j]}{ar + i}')
+        if not chained and ac == 0 and draw(st.integers(0, 2)) == 0:
+            # a neighbouring block with the very same formula text, and a
+            # range that spans both
+            ref2 = f'{COLS[2]}{ar}:{COLS[3]}{ar + ah - 1}'
+            arrays.append(dict(sheet=SHEET, ref=ref2,
+                               formula=arrays[-1]['formula']))
+            ranges.append(f'{SHEET}!{ref2}')
+            ranges.append(f'{SHEET}!{COLS[0]}{ar}:{COLS[3]}{ar + ah - 1}')
+            for i in range(ah):
+                for j in (2, 3):
+                    taken.add((ar + i, j))
+                    formulas.append(f'{SHEET}!{COLS[j]}{ar + i}')
         if chained:
             dr = draw(st.integers(n_const_rows + 1, ar - 1))
             dc = draw(st.integers(0, 2))
@@ -298,8 +310,7 @@ def specs(draw, max_formulas=14, with_arrays=True, with_names=True,
         made += 1
 
     if made == 0:
-        r = n_const_rows + 1
-        ci = next(c for c in range(4) if (r, c) not in taken)
+        r, ci = next(pos for pos in positions if pos not in taken)
         sheets[SHEET][f'{COLS[ci]}{r}'] = '=A1+B1'
         formulas.append(f'{SHEET}!{COLS[ci]}{r}')
 
